@@ -5,33 +5,37 @@ pub fn vpanic() -> ! requires false { panic!() }
 
 pub fn vmin(a: usize, b: usize) -> (r: usize) ensures r == (if a <= b { a } else { b }) { if a <= b { a } else { b } }
 pub fn vsub_sat(a: usize, b: usize) -> (r: usize) ensures r == (if a >= b { a - b } else { 0 }) { if a >= b { a - b } else { 0 } }
-// number of elements visited by `.step_by(s)` over `len` elements
+// number of elements visited by `.step_by(s)` over `len` elements: the unique r with (r-1)*s < len <= r*s (0 for len = 0)
+pub open spec fn vdiv_ceil_spec(len: int, s: int) -> int { if len <= 0 { 0 } else { (len - 1) / s + 1 } }
+pub proof fn lemma_div_ceil_exact(len: int, s: int, r: int)
+    requires s > 0, r >= 0, len == r * s
+    ensures vdiv_ceil_spec(len, s) == r
+{
+    if len > 0 {
+        assert(r >= 1) by (nonlinear_arith) requires len == r * s, len > 0, s > 0, r >= 0;
+        assert(len - 1 == s * (r - 1) + (s - 1)) by (nonlinear_arith) requires len == r * s;
+        vstd::arithmetic::div_mod::lemma_fundamental_div_mod_converse(len - 1, s, r - 1, s - 1);
+    } else {
+        assert(r == 0) by (nonlinear_arith) requires len == r * s, len <= 0, s > 0, r >= 0;
+    }
+}
 pub fn vdiv_ceil(len: usize, s: usize) -> (r: usize)
     requires s > 0
-    ensures (r as int) * (s as int) < len + s, r > 0 ==> ((r - 1) * (s as int)) < len, len > 0 ==> r > 0, r <= len
+    ensures r == vdiv_ceil_spec(len as int, s as int), r <= len, len > 0 ==> r > 0,
+        r > 0 ==> ((r - 1) * (s as int)) < len, len <= (r as int) * (s as int)
 {
-    let q = len / s;
-    let m = len % s;
+    if len == 0 { return 0; }
+    let q = (len - 1) / s;
     proof {
-        vstd::arithmetic::div_mod::lemma_fundamental_div_mod(len as int, s as int);
-        assert(len == (s as int) * (q as int) + (m as int));
+        vstd::arithmetic::div_mod::lemma_fundamental_div_mod((len - 1) as int, s as int);
+        vstd::arithmetic::div_mod::lemma_mod_bound((len - 1) as int, s as int);
+        let m = ((len - 1) as int) % (s as int);
+        assert((len - 1) == (s as int) * (q as int) + m);
         assert((q as int) * (s as int) == (s as int) * (q as int)) by (nonlinear_arith);
+        assert(((q + 1) as int) * (s as int) == (s as int) * (q as int) + s) by (nonlinear_arith);
+        assert(q <= len - 1) by (nonlinear_arith) requires (len - 1) == (s as int) * (q as int) + m, s >= 1, m >= 0, q >= 0;
     }
-    if m == 0 {
-        proof {
-            assert(q > 0 ==> ((q - 1) * (s as int)) < len) by (nonlinear_arith) requires len == (s as int) * (q as int), s > 0;
-            assert(len > 0 ==> q > 0) by (nonlinear_arith) requires len == (s as int) * (q as int), s > 0;
-            assert(q <= len) by (nonlinear_arith) requires len == (s as int) * (q as int), s > 0, q >= 0;
-        }
-        q
-    } else {
-        proof {
-            assert(s >= 2);
-            assert(q < len) by (nonlinear_arith) requires len == (s as int) * (q as int) + (m as int), s >= 2, m > 0, q >= 0;
-            assert(((q + 1) as int) * (s as int) == (s as int) * (q as int) + s) by (nonlinear_arith);
-        }
-        q + 1
-    }
+    q + 1
 }
 
 pub open spec fn p2(k: nat) -> int decreases k { if k == 0 { 1 } else { 2 * p2((k - 1) as nat) } }
